@@ -29,7 +29,7 @@ func init() {
 			return 160
 		},
 		Batches: func(t string) int { return 16 },
-		Rule: "each case = one real PeerToPeer with 6 connected peers (roles none/seed/root/seed+root all present, connection types drawn from all 7 incl. one undetermined) and a recording application callback; phase A (sequential, synchronous observation): every (dest in {any,seed,root,peer,other} x ttl in {0,1,2,255} x src in {delivering peer, another peer, unknown id, own id} x delivering peer) combination as a fresh packet parsed by the real PacketReader, followed by 0-3 relayed copies through other peers (different extension bytes, same hash); phase B (concurrent): 200 distinct packets, each relayed by 1-6 peers, written in PRNG order into the 6 peers' connections and consumed by the peers' real receive routines (one goroutine per peer, race detector on); phase C (1 case in 4): 600-11000 distinct flooded packets first (bucket rotation and ring wrap of the 20x500 pool), then duplicates of packets at most 1900 distinct packets old. Non-trivial = distinct scenario (phase, dest, ttl, ordered list of (peer role, connection type, src kind) of the copies) that has >=2 copies through different peers or an unauthorized copy.",
+		Rule:    "each case = one real PeerToPeer with 6 connected peers (roles none/seed/root/seed+root all present, connection types drawn from all 7 incl. one undetermined) and a recording application callback; phase A (sequential, synchronous observation): every (dest in {any,seed,root,peer,other} x ttl in {0,1,2,255} x src in {delivering peer, another peer, unknown id, own id} x delivering peer) combination as a fresh packet parsed by the real PacketReader, followed by 0-3 relayed copies through other peers (different extension bytes, same hash); phase B (concurrent): 200 distinct packets, each relayed by 1-6 peers, written in PRNG order into the 6 peers' connections and consumed by the peers' real receive routines (one goroutine per peer, race detector on); phase C (1 case in 4): 600-11000 distinct flooded packets first (bucket rotation and ring wrap of the 20x500 pool), then duplicates of packets at most 1900 distinct packets old. Non-trivial = distinct scenario (phase, dest, ttl, ordered list of (peer role, connection type, src kind) of the copies) that has >=2 copies through different peers or an unauthorized copy.",
 		MinNonTrivial: func(t string) int {
 			if t == ev.Thorough {
 				return 500000
@@ -47,9 +47,9 @@ func init() {
 		},
 		TimeoutSec: func(t string) int {
 			if t == ev.Thorough {
-				return 30000
+				return 6000
 			}
-			return 300
+			return 600
 		},
 		Run: run,
 	})
@@ -390,7 +390,6 @@ func phaseD(w *world) {
 		c.Count("unregistered_protocol_not_delivered", 1)
 	}
 }
-
 
 // runSequential feeds the copies of k one by one and checks every step against the table.
 func runSequential(w *world, phase string, k *pktSpec, order []int) {
